@@ -1,17 +1,18 @@
 --------------------------- MODULE Trace_Placement ---------------------------
 (* Validates recorded RegionMask calls (boxes far outside the enumerated range, larger images) *)
-(* against the Ref operators of Placement.tla.  One initial state per event.                    *)
+(* against the Ref operators of Placement.tla.  One initial state per event; consecutive events  *)
+(* are calls on the same RegionMask object (a history), each of which must be explained on its own. *)
 EXTENDS PlacementOps, Json, IOUtils
 Events == JsonDeserialize(IOEnv.TRACE_FILE)
 (* results are logged in the model's encoding: arrays as sequences of rows (1-based here),      *)
 (* cutout/multiply cells as <<"d", v>> / <<"f">> / <<"z">>, "none" for None                      *)
 Rows(f, n, m) == IF f = None THEN <<>> ELSE [j \in 1..n |-> [i \in 1..m |-> f[j - 1][i - 1]]]
-IsNone(e) == CASE e.op = "to_image" -> ToImageRef(e.box, e.pat, e.h, e.w) = None
+IsNone(e) == CASE e.op = "to_image" -> ToImageRef(e.box, e.pat, e.h, e.w, e.arg) = None
                 [] e.op = "cutout" -> CutoutRef(e.box, e.h, e.w) = None
                 [] e.op = "multiply" -> MultiplyRef(e.box, e.pat, e.h, e.w) = None
                 [] OTHER -> FALSE
 Expected(e) ==
-  CASE e.op = "to_image" -> Rows(ToImageRef(e.box, e.pat, e.h, e.w), e.h, e.w)
+  CASE e.op = "to_image" -> Rows(ToImageRef(e.box, e.pat, e.h, e.w, e.arg), e.h, e.w)
     [] e.op = "cutout" -> Rows(CutoutRef(e.box, e.h, e.w), NY(e.box), NX(e.box))
     [] e.op = "multiply" -> Rows(MultiplyRef(e.box, e.pat, e.h, e.w), NY(e.box), NX(e.box))
     [] e.op = "get_values" -> ValuesRef(e.box, e.pat, e.h, e.w, e.arg)
